@@ -82,6 +82,27 @@ def check_shortest_block(run, key, qname, dname, anglefn='acos'):
     if ang is None:
         run.error('R14: %s: no angle = %s(%s) statement found' % (key, anglefn, dname))
         return
+    # must-pass-through: every path to the angle computation evaluates the `shortest` test
+    from ..cfg import header_expr
+    def always_evaluates(t):
+        # `a and shortest` evaluates shortest only when a is true: only the first operand of a boolean operator is certain
+        if isinstance(t, ast.Name):
+            return t.id == 'shortest'
+        if isinstance(t, ast.BoolOp):
+            return always_evaluates(t.values[0])
+        if isinstance(t, ast.UnaryOp):
+            return always_evaluates(t.operand)
+        if isinstance(t, ast.Compare):
+            return always_evaluates(t.left)
+        return False
+    tests = {n.id for n in cfg.nodes if n.id in reach and n.kind != 'stmt' and any(h is not None and always_evaluates(h) for h in header_expr(n))}
+    witness = cfg.paths_to_exit_avoiding(lambda n: n.id in tests, target=ang.id)
+    if witness is None:
+        run.holds(RULE, key, 'shortest test on every path', 'every path to the angle computation passes the `shortest` test', f=f, node=ang.ast)
+    else:
+        run.violation(RULE, key, 'shortest test on every path', 'there is a path to the angle computation (%s) that never evaluates the `shortest` test (through line %s): on '
+                      'that path (a call form / branch) shortest=True is ignored and the long arc is taken when the dot product is negative'
+                      % (src(ang.ast, 40), ', '.join(str(getattr(n.ast, 'lineno', '?')) for n in witness[-4:-1] if n.ast is not None)), f=f, node=ang.ast)
     after = ang.id in cfg.reachable(flips[dname].id) and flips[dname].id not in cfg.reachable(ang.id)
     if after:
         run.holds(RULE, key, 'angle after flip', 'the angle is computed from the dot product after the shortest-arc sign flip', f=f, node=ang.ast)
@@ -190,8 +211,8 @@ def check_trinterp_tables(run):
     nm = Normaliser()
     nm.scalars = {s}
     exp = {
-        ('rot', True): 'q2r(slerp(eye(), r2q(t2r({e})), {s}))',
-        ('rot', False): 'q2r(slerp(r2q(t2r({b})), r2q(t2r({e})), {s}))',
+        ('rot', True): 'q2r(slerp(eye(), r2q({e}), {s}))',
+        ('rot', False): 'q2r(slerp(r2q({b}), r2q({e}), {s}))',
         ('hom', True): 'rt2tr(q2r(slerp(eye(), r2q(t2r({e})), {s})), {s} * transl({e}))',
         ('hom', False): 'rt2tr(q2r(slerp(r2q(t2r({b})), r2q(t2r({e})), {s})), transl({b}) * (1 - {s}) + {s} * transl({e}))',
     }
